@@ -12,10 +12,14 @@ SPEC = dict(
                'get_matched_intensity_percentage / binomial_score bodies (sort with key lambda, zip(*), dict comprehension, math.comb) '
                'are outside the verified subset: bounded only.',
     design_ref='DESIGN.md section 6, C17',
-    contracts=['score'],
+    contracts=['score', 'fragmatch'],
     bounded=[dict(name='C17-bounded', script='bounded/C17.py')],
     replay_finder='bounded/C17.py',
-    proved_clauses=['get_matched_indices: exact window per theoretical value, shared lower pointer never skips a needed peak (invariant '
+    proved_clauses=['get_fragment_matches for inputs already in m/z order (contracts/fragmatch.py, three modes): mode all -- exactly the pairs (fragment, peak in its '
+                    'tolerance), each with that peak\'s m/z and intensity; closest / largest -- every fragment with a peak in tolerance gets one match, '
+                    'with a peak in tolerance at minimal distance / of maximal intensity; nothing else; an empty spectrum gives nothing. (LC-SORT-STABLE: '
+                    'sorting an already sorted list changes nothing; the permutation applied to unsorted input is exercised by the bounded tier)',
+                    'get_matched_indices: exact window per theoretical value, shared lower pointer never skips a needed peak (invariant '
                     'ptr-safe), termination (variants), no IndexError/TypeError, ValueError iff invalid tolerance type',
                     "match_spectra mode 'all'/'closest'/'largest': per-entry characterisation over the callee contract"],
     bounded_clauses=['get_fragment_matches pairs each fragment with those peaks regardless of input order (all orders of <=4 elements)',
